@@ -6,22 +6,24 @@ SPEC = {
         "shims": {"domainproxy": "internal/httpservice/modules/domainproxy"},
         "runs": [{"args": [], "corpus": ""}],
     },
-    "level_text": ("Lean 4 theorems about the executable interleaving model of CreateMapping / DeleteMapping / UpdateMapping / lookupMapping "
-                   "(one model step per storage call), for every set of client threads, every history and every schedule: single owner "
-                   "(C19_single_owner), owner-only delete (C19_owner_only_delete), final store (C19_final_store), routing soundness in every "
-                   "reachable state (C19_routing_sound: only the claimant's active, unexpired record or a routable registry/cloud mapping for "
-                   "exactly the name the Host denotes), host normalisation for every Host string (C19_host_key). The monitor clauses `look` "
-                   "(no routing after a completed delete, known-inactive never routes, precedence of a certain owner over registry/cloud) and "
-                   "`claim` (name claimable again) are part of `holds` and are evaluated on every observation of the real code, but are proved "
-                   "only in the state-level form above (C19_main_partial names what is missing). The model is tied to the source by "
-                   "regenerated constants, IsExpired/IsActive/Validate and call skeletons, and by the gated differential run."),
+    "level_text": ("Lean 4 theorem C19_main: for every set of client threads, every history of create / delete / update / lookup operations, "
+                   "every registry / cloud table and every schedule of storage steps, the observation of the executable interleaving model of "
+                   "CreateMapping / DeleteMapping / UpdateMapping / lookupMapping (one model step per storage call) satisfies `holds` — the "
+                   "same monitor predicate the runner evaluates on the observations of the real code: single owner, owner-only delete, "
+                   "claimable again after the owner's delete, every routed lookup justified at its point of the history (owner's client and "
+                   "target for exactly the name the Host denotes, never after a completed delete, never known-inactive / expired, registry / "
+                   "cloud only when no repository mapping certainly owns the name), final store. Only hypothesis: the repaired DeleteMapping "
+                   "(the as-found variant has a witness theorem). Plus state-level theorems for every reachable state (C19_routing_sound, "
+                   "C19_deleted_stays_unindexed) and host normalisation for every Host string (C19_host_key). The model is tied to the source "
+                   "by regenerated constants, IsExpired/IsActive/Validate and call skeletons, and by the gated differential run."),
     "rule": ("client threads of create / delete / update / lookup operations run on the real HTTPDomainMappingRepository and the real "
              "DomainProxyModule.lookupMapping over a gated wrapper of the real memory.Storage (and a gated CloudControl double): every "
              "storage call is one scheduler step, so the real execution is the interleaving named by the schedule. Streams: exhaustive "
              "interleavings of two-thread templates (create||create, delete||create, delete||lookup, foreign delete, update||lookup, "
              "update||delete, ...), segment-cut and uniform samples of 3-4 thread templates (double delete around a re-claim, zombie "
              "record re-delete), Host spellings (ports, empty port, IPv6 literals, case, trailing dot, junk) against every status/expiry "
-             "variant and registry/cloud fallback entry, boundary/malformed creates, random programs with random schedules. "
+             "variant and registry/cloud fallback entry, boundary/malformed creates, single storage-failure injection at every call of CreateMapping "
+             "(fault gate in the store wrapper), random programs with random schedules. "
              "non-trivial = more than one thread or a non-empty schedule; distinct = distinct case strings"),
     "trusted_base": [
         "Lean 4.33 kernel; axioms propext, Classical.choice, Quot.sound only (audited per theorem on every run)",
@@ -32,7 +34,7 @@ SPEC = {
     ],
     "assumptions": [
         "names are compared as byte strings, as the code does (a case variant is a different name); DNS case-insensitivity is out of scope",
-        "the delete claim's lease (30 s) outlives one DeleteMapping call; storage failures (rollback paths) are not injected",
+        "the delete claim's lease (30 s) outlives one DeleteMapping call; storage failures are injected for CreateMapping only (single failure, sequential: C19_failed_create_leaves_nothing), not inside interleavings and not for DeleteMapping",
         "expiry values used by the harness are far from the wall clock, so the model's explicit clock and time.Now() agree",
         "registry (deprecated in-memory source) and cloud control are static tables per case; the registry step is atomic with the preceding storage step",
     ],
